@@ -611,7 +611,8 @@ pub fn miri_c16(seed: u64, n: u64) {
                 for k in 0..2u32 {
                     s.spawn(move || {
                         for _ in 0..3 {
-                            let fr_idx = k % nf;
+                            // frames 1 and 9 of a 10-frame sprite share a slot in any 2/4/8-way table
+                            let fr_idx = if nf >= 10 { 1 + 8 * k } else { k % nf };
                             let o = exec_out(fr, &Op::FrameImage(fr_idx), costsr);
                             assert!(
                                 o == wantr[fr_idx as usize],
